@@ -15,6 +15,12 @@ CHECKS = {
  'C05': ('other', 'PyVC: VCs from the real AST + loop invariants, z3/cvc5 (P); symbolic execution on enumerated tree shapes (S, bounded); run-time contracts (R, bounded)',
          'forge_nat/forge_int/unforge_int/get_tag/read_tag/forge_array/unforge_array proved for all integers and all byte strings against the Zarith/Micheline grammar spec; forge_micheline/unforge_micheline only on bounded tree shapes (symbolic leaves) and bounded native trees; claimed as other because the recursive parser is not proved unbounded',
          'trusted: PyVC encoding of the Python subset, z3/cvc5, specs/zarith.py + specs/micheline_bin.py; assumed inverse pairs hex/fromhex, encode/decode, str/int; prim table read live', '5/C05'),
+ 'C07': ('exploration', 'run-time contracts on Key.sign / Key.verify / CHECK_SIGNATURE over fixed key sets x enumerated variations, independent verifiers (OpenSSL/cryptography, recomposed BLS) (bounded)',
+         'PARTIAL: the wrapper logic is under contract (sign never raises, prefixes, digest discipline, verify(sign(m)), rejection of every single-bit/byte alteration of message/signature/key over the enumerated set, CHECK_SIGNATURE agreement); the cryptographic primitives (pysodium, coincurve, fastecdsa, py_ecc) are assumed contracts: this family cannot decide elliptic-curve arithmetic in C libraries',
+         'assumed: correctness of the crypto libraries and of the independent verifiers; bounded key/message/alteration sets', '5/C07'),
+ 'C08': ('exploration', 'run-time contracts on key import/export/address derivation and BIP-39 validation against independent recomputation (bounded)',
+         'PARTIAL: public key hash = b58(tz-prefix, blake2b-160(public key)) recomputed independently, export/import round trips for 4 curves x passphrases, validate_mnemonic == specs/bip39.py on valid/invalid mnemonics, determinism; public-key derivation itself is an assumed contract of the libraries; one known finding (BLS mnemonic derivation)',
+         'assumed: crypto libraries; bounded key/passphrase/mnemonic sets', '5/C08'),
  'C09': ('proof', 'PyVC: per-row linear-integer VCs over the live table + symbolic execution of the real encode/decode/validate ASTs over ghost base58 numbers, z3',
          'for every row and ALL payloads the encoded string has the documented prefix and length; table unambiguity; base58_encode/base58_decode/_validate/is_* decided on the real code with the base58 package replaced by its contract; payload lengths are fixed per row so per-row symbolic execution is complete',
          'assumed: base58.b58encode_check/b58decode_check implement specs/b58.py (exercised at run time every run); sha256 checksum uninterpreted; PyVC encoding; z3', '5/C09'),
@@ -30,9 +36,18 @@ CHECKS = {
  'C33': ('exploration', 'run-time contract against an independent spec_expand over bounded enumeration of scripts and reference graphs',
          'scripts up to size 5 with references in type/code/data position, acyclic constant graphs to depth 3, unknown hashes; hash recomputed independently (Micheline encoder + blake2b + base58 expr)',
          'bounded; shell RPC stubbed by monkeypatch; specs/global_constants.py checked against 7 recorded hashes', '5/C33'),
+ 'C21': ('exploration', 'run-time contracts on BLS12-381 types and instructions against an independent Fp/Fp2 model and zcash serialization (bounded)',
+         'PARTIAL: encodings round-trip for G1/G2 incl. infinity, Fr reduction and little-endian round trip, identity/inverse/associativity/distributivity and PAIRING_CHECK through the real instructions on scalar multiples 0..3 of the generators; the group/field laws of py_ecc for all points are an assumed contract',
+         'assumed: py_ecc arithmetic; bounded point/scalar sets', '5/C21'),
  'C22': ('exploration', 'run-time relational contract on Interpreter.execute over exhaustively enumerated REPL sessions with injected failures (bounded)',
          'all sessions up to length 4 (5 + subset of 6 thorough) over a 15-cell alphabet with a failing instruction injected at every position: stack, context, ownership invariant (big_maps refer to the interpreter context) and every later observable equal those of the session without the failing cells; heap aliasing/deepcopy is outside the deductive engine',
          'bounded session length and cell alphabet; structural comparison of observables', '5/C22'),
+ 'C23': ('exploration', 'run-time contracts on OperationGroup.sign/hash/binary_payload with independent verification and hash recomputation (bounded)',
+         'PARTIAL: for groups of the forgeable kinds x 4 key kinds x chain ids the signature verifies over watermark (03, or 02+chain id for consensus kinds) + forged bytes and the hash is b58(o, blake2b-256(forged + raw signature)) recomputed independently; cryptographic validity assumed as in C07',
+         'assumed: crypto libraries; RPC stubbed; bounded groups/keys', '5/C23'),
+ 'C26': ('other', 'PyVC: symbolic execution of the real RpcNode.request AST over a symbolic response sequence (constant loop bound, complete) (P); exhaustive enumeration of classifier body shapes (S); run-time contract over response sequences (R)',
+         'a request is re-sent exactly after a transient 5xx below the attempt limit, at most 6 attempts, delays 0.25*2^i capped at 2.0, the last response decides (200 returned, else its error) for ALL status codes and verdicts; _is_transient_response equals the specification on every body shape (error lists of length 0..3 over 6 element kinds x content type x marker)',
+         'assumed: requests.request/sleep/json/pformat externals as ghost stubs; RpcError.from_response by contract; PyVC encoding; z3', '5/C26'),
  'C25': ('exploration', 'run-time contracts with ghost node state (account counter, mempool) over exhaustively enumerated client call sequences on a simulated node (bounded)',
          'all well-formed call sequences up to length 5 (6 thorough) over build/fill/autofill/sign/inject ok|fail/send/new block: every injected group carries consecutive counters after node counter + pending operations; two fill()-only-path defects are recorded as known findings',
          'simulated node (specs/C25_node.py) stubs the shell RPC; bounded sequence length; protocol-level history property: no inductive invariant attempted', '5/C25'),
